@@ -2573,7 +2573,10 @@ BD_Shape<T>::simplify_using_context_assign(const BD_Shape& y) {
   // Filter away the zero-dimensional case.
   if (dim == 0) {
     if (y.marked_empty()) {
-      x.set_zero_dim_univ();
+      // Note: the matrix of an empty zero-dimensional shape may hold
+      // a meaningless element.
+      BD_Shape<T> res(0, UNIVERSE);
+      x.m_swap(res);
       return false;
     }
     else {
